@@ -56,7 +56,11 @@ func c08Drivers(thorough bool) []*engine.HDriver {
 	// a local server feature of type Generic fits every requested type; the client has to fit the REQUESTED type
 	gen := []string{"sub:A:e1f1:L1gen:lc:d", "sub:B:e1f3:L1gen:ms:d", "sub:A:e1f3:L1gen:lc:d", "sub:A:e1f1:L1gen:gen:d", "sub:B:e1f4:L1gen:lc:d",
 		"unsub:A:e1f1:L1gen:d", "unsub:B:e1f3:L1gen:d", "sub:A:e1f1:L1lc:lc:d", "disc:A", "reconn:A"}
-	return []*engine.HDriver{regDriver("subscriptions", c08Alphabet(thorough), true, false, nil), regDriver("subscriptions-generic-server-feature", gen, true, false, nil)}
+	// the local node management feature (role special) is subscribed like a server feature, and its subscribers are
+	// notified when its data changes (the use case data does at run time)
+	nm := []string{"sub:A:nm:Lnm:nm:d", "sub:B:nm:Lnm:nm:d", "unsub:A:nm:Lnm:d", "uc:1", "uc:0", "disc:A", "reconn:A", "sub:A:e1f1:L1lc:lc:d", "set:L1lc:2"}
+	return []*engine.HDriver{regDriver("subscriptions", c08Alphabet(thorough), true, false, nil), regDriver("subscriptions-generic-server-feature", gen, true, false, nil),
+		regDriver("subscriptions-node-management", nm, true, false, nil)}
 }
 
 // c08Scenarios: the grant decision ("not subscribed already"), the removal of exactly the addressed
